@@ -2,4 +2,5 @@
 import BobModel.Util.Bytes
 import BobModel.Util.Sha1
 import BobModel.Util.Proto
+import BobModel.Props.C10
 import BobModel.Props.C17
